@@ -117,6 +117,9 @@ func runC14(c *Ctx) {
 	}
 	c14Absence(c)
 	wrapperAbsence(c, "R6")
+	c.Rule("R7", "keys and values are copied out of native slices into buffers sized by the same slice", 1)
+	nativeSliceCopies(c, "R7", []string{"storage/rocks"})
+	freshWriteBatches(c, "R4", []string{"storage/rocks"})
 }
 
 func isPrefixDerived(t *Term) bool {
